@@ -611,6 +611,16 @@ func (h *c04Harness) newByteLink() (*c04Link, error) {
 	return l, nil
 }
 
+// c04Paced: a stream whose writer pauses after every Write (any other goroutine may run between
+// two Writes of one goroutine; on a socket the gap is otherwise a few hundred nanoseconds wide)
+type c04Paced struct{ net.Stream }
+
+func (y c04Paced) Write(p []byte) (int, error) {
+	n, err := y.Stream.Write(p)
+	time.Sleep(30 * time.Microsecond)
+	return n, err
+}
+
 // newConnLink: client and server joined by net.Pipe of the Go runtime ("pipe"), a unix socket
 // ("unix") or a TCP socket on the loopback interface ("tcp"); the server side is handed to the
 // server through the harness listener.  No relay: of the frames coming back the harness sees the
@@ -660,13 +670,13 @@ func (h *c04Harness) newConnLink(kind, dir string) (*c04Link, error) {
 	default:
 		return nil, errors.New("unknown transport " + kind)
 	}
-	if err := h.lis.Offer(net.ConnStream(sconn), c04Deadline); err != nil {
+	if err := h.lis.Offer(c04Paced{net.ConnStream(sconn)}, c04Deadline); err != nil {
 		cconn.Close()
 		sconn.Close()
 		return nil, err
 	}
 	sink := make(chan *net.Message, 1)
-	l.ep = net.EndPointFinalizer(net.ConnStream(cconn), func(e net.EndPoint) {
+	l.ep = net.EndPointFinalizer(c04Paced{net.ConnStream(cconn)}, func(e net.EndPoint) {
 		e.MakeHandler(func(hdr *net.Header) (bool, bool) {
 			l.mu.Lock()
 			l.s2c = append(l.s2c, c04Frame{hdr.Type, hdr.Service, hdr.Object, hdr.Action, hdr.ID, nil})
